@@ -561,6 +561,10 @@ func genJudge(w *Worker, id string, o *obs, variants []string) {
 		}
 		for i, in := range o.inputs {
 			r := runs[i]
+			if r.Class == "not-run" {
+				w.Count("gen_not_run_after_hang", 1)
+				continue
+			}
 			w.Count("gen_runs", 1)
 			// conformance with the model (binding, not a verdict)
 			p := o.predict(m, in)
@@ -659,6 +663,9 @@ func c05GenJudge(w *Worker, o *obs, bad func(kind, variant, in, msg string, deta
 		}
 		for i, in := range o.inputs {
 			x, y := a[i], b[i]
+			if x.Class == "not-run" || y.Class == "not-run" {
+				continue
+			}
 			if x.Class != y.Class || !sameReds(x.Reds, y.Reds, false) || x.N != y.N || x.S != y.S {
 				bad("packed-vs-unpacked", pair[0], in, fmt.Sprintf("packed: %s reds=%v value=%d/%q; -u: %s reds=%v value=%d/%q", x.Class, x.Reds, x.N, x.S, y.Class, y.Reds, y.N, y.S), nil)
 				return
@@ -685,6 +692,9 @@ func c08GenJudge(w *Worker, o *obs, variants []string, bad func(kind, variant, i
 		w.Count("variant_pairs_compared", 1)
 		for i, in := range o.inputs {
 			x, y := o.runs[base][i], o.runs[v][i]
+			if x.Class == "not-run" || y.Class == "not-run" {
+				continue
+			}
 			if x.Class != y.Class || !sameReds(x.Reds, y.Reds, false) || (x.Class == "accept" && (x.N != y.N || x.S != y.S)) {
 				bad("variants-disagree", v, in, fmt.Sprintf("%s: %s reds=%v value=%d/%q %s; %s: %s reds=%v value=%d/%q %s", base, x.Class, x.Reds, x.N, x.S, x.Panic, v, y.Class, y.Reds, y.N, y.S, y.Panic), nil)
 				return
